@@ -77,6 +77,7 @@ type script struct {
 	N     int    // number of ids at the height
 	Get   string // Get: ok | <scriptedErr>   (applies to chunk GetAt)
 	GetAt int
+	Delay time.Duration // submit `slow`: how long the DA layer works on the batch before it stores it and answers
 }
 
 // backing is the scripted DA double behind both the direct and the proxied execution.
@@ -90,6 +91,9 @@ type backing struct {
 
 	// answer `wait` (xsubmit) and the DA-side gate (csubmit gate=da): a call parks inside the DA layer
 	w *waitState
+	// answer `slow` (slowsubmit): what the DA layer stored, by id (Get serves these before the synthetic blobs)
+	store    map[string][]byte
+	slowKept [][]byte
 }
 
 // waitState is one armed wait: the call that parks announces itself on entered and goes on when its context
@@ -108,7 +112,7 @@ type waitState struct {
 func (b *backing) reset(s script) {
 	b.mu.Lock()
 	defer b.mu.Unlock()
-	b.s, b.submits, b.tags, b.gets, b.idsN, b.w = s, nil, nil, nil, 0, nil
+	b.s, b.submits, b.tags, b.gets, b.idsN, b.w, b.store, b.slowKept = s, nil, nil, nil, 0, nil, nil, nil
 }
 
 // arm prepares one parked call (after reset).
@@ -184,6 +188,26 @@ func (b *backing) SubmitWithOptions(ctx context.Context, blobs []coreda.Blob, gp
 		<-w.release // csubmit gate=da: the request has been received, the answer is held back
 		b.mu.Lock()
 	}
+	if b.s.Sub == "slow" {
+		// a DA layer that needs a while (inclusion in a DA block): it honours its context, then stores and answers
+		delay, h := b.s.Delay, b.s.H
+		b.mu.Unlock()
+		select {
+		case <-ctx.Done():
+			return nil, ctx.Err()
+		case <-time.After(delay):
+		}
+		b.mu.Lock()
+		defer b.mu.Unlock()
+		ids := make([]coreda.ID, len(cp))
+		b.store = map[string][]byte{}
+		for i := range cp {
+			ids[i] = mkID(h, i)
+			b.store[string(ids[i])] = cp[i]
+		}
+		b.slowKept = cp
+		return ids, nil
+	}
 	defer b.mu.Unlock()
 	if b.s.Sub == "wait" {
 		return nil, errors.New("bad script") // not armed
@@ -255,6 +279,10 @@ func (b *backing) Get(ctx context.Context, ids []coreda.ID, _ []byte) ([]coreda.
 	for i, id := range ids {
 		if len(id) != 16 {
 			return nil, coreda.ErrBlobNotFound
+		}
+		if v, ok := b.store[string(id)]; ok {
+			out[i] = v
+			continue
 		}
 		out[i] = blobOf(int(binary.LittleEndian.Uint64(id[8:])) - 1)
 	}
